@@ -9,7 +9,7 @@ MODULES = ["PdsVerif.Props.C02"]
 MODEL_MODULES = ["PdsVerif.Model.StftDrv"]
 REQUIRED = ["PdsVerif.C02." + n for n in [
     "full_short", "full_count", "full_frame_spec", "full_frames_length", "frame_origin", "walk_covers",
-    "walk_idx_in_range", "walk_bins_distinct", "walk_real_within_half", "real_doubling", "default_len_bin"]]
+    "walk_idx_in_range", "walk_bins_distinct", "full_spectrum_sum", "walk_real_within_half", "real_doubling", "default_len_bin"]]
 RULE = (
     "walk: (DFT size D in 2..67 (all residues mod 4), start bin < D, truncated length <= D, integer/gaussian-integer taps) "
     "driven through the public STFT computer with a SpecBank tracer and a signal irfft(A) of integer magnitudes A, "
@@ -20,7 +20,6 @@ RULE = (
 TRUSTED = [
     "np.fft.rfft is the DFT and a real signal's spectrum is Hermitian (X[D-b] = conj X[b])",
     "np.pad 'symmetric' semantics as modelled (symIdx); tracer components SpecBank / DCBank / IntWindow",
-    "the sum over distinct full-spectrum bins equals the sum over taps (walk_bins_distinct) - the re-binning step itself is stated, not formalised as a Finset bijection",
 ]
 ASSUMPTIONS = [
     "real_doubling needs the bank's taps at DC and (even D) Nyquist to be zero, as for the library's triangular / Fbank banks; checked on library banks by the oracle",
